@@ -174,7 +174,9 @@ class Builder:
     @contextmanager
     def in_block_context(self, context, name):
         """Mark us as being in a certain kind of block context."""
-        context_name = f"__in_context_{name}__"
+        # The marker shares the dictionary with the identifiers in scope: its
+        # key is a tuple, which no identifier can be.
+        context_name = ("in_context", name)
         old_value = context.get(context_name)
         context[context_name] = True
         try:
@@ -189,7 +191,7 @@ class Builder:
         """Return if we are in any block context given in names."""
         if isinstance(names, str):
             names = [names]
-        names = [f"__in_context_{name}__" for name in names]
+        names = [("in_context", name) for name in names]
         return any(context.get(name, False) for name in names)
 
     def build_register(self, sexpression, context, gate_context):
